@@ -1,0 +1,70 @@
+//go:build verif
+
+package router
+
+// Verification hooks (add-only, tag "verif"): start/stop the real router in-process and reach a few
+// unexported pure helpers. Nothing here is compiled into a normal build.
+
+import (
+	"context"
+	"errors"
+	"net/netip"
+
+	"github.com/IrineSistiana/mosproxy/internal/dnsmsg"
+	"github.com/IrineSistiana/mosproxy/internal/mlog"
+	"github.com/IrineSistiana/mosproxy/internal/pool"
+	"github.com/rs/zerolog"
+)
+
+type VerifRouter struct{ r *router }
+
+// VerifRun starts the real router (run) with cfg; the caller drives it through its real sockets.
+func VerifRun(cfg *Config) (*VerifRouter, error) {
+	r, err := run(context.Background(), cfg)
+	if err != nil {
+		return nil, err
+	}
+	return &VerifRouter{r: r}, nil
+}
+
+func (v *VerifRouter) Close() { v.r.close(errors.New("verif: close")) }
+
+func VerifQuiet() { mlog.SetLvl(zerolog.Disabled) }
+
+// VerifPackReq is router.packReq on a router that has only the ecs option set.
+func VerifPackReq(ecs bool, name []byte, typ, class uint16, addr netip.Addr) ([]byte, error) {
+	r := &router{}
+	r.opt.ecsEnabled = ecs
+	q := dnsmsg.NewQuestion()
+	q.Name = append(q.Name[:0], name...)
+	q.Type = dnsmsg.Type(typ)
+	q.Class = dnsmsg.Class(class)
+	defer dnsmsg.ReleaseQuestion(q)
+	b, err := r.packReq(q, addr)
+	if err != nil {
+		return nil, err
+	}
+	out := append([]byte(nil), b...)
+	pool.ReleaseBuf(b)
+	return out, nil
+}
+
+func VerifEcsOpt(addr netip.Addr) []byte {
+	b := makeEdns0ClientSubnetReqOpt(addr)
+	if b == nil {
+		return nil
+	}
+	out := append([]byte(nil), b...)
+	pool.ReleaseBuf(b)
+	return out
+}
+
+// VerifMustHaveRespB is mustHaveRespB on decoded messages (resp may be nil).
+func VerifMustHaveRespB(query, resp *dnsmsg.Msg, errRcode uint16, tcp bool, size int) []byte {
+	b := mustHaveRespB(query, resp, dnsmsg.RCode(errRcode), tcp, size)
+	out := append([]byte(nil), b...)
+	pool.ReleaseBuf(b)
+	return out
+}
+
+const VerifUdpSize = udpSize
